@@ -292,6 +292,11 @@ impl<'store> ResultItem<'store, Annotation> {
             }
         }
 
+        if outputted_to_main {
+            //separate the last main-level predicate from what follows
+            ann_out.push(',');
+        }
+
         if config.auto_generated && !suppress_auto_generated {
             ann_out += &format!(" \"generated\": \"{}\",", Local::now().to_rfc3339());
         }
